@@ -245,12 +245,24 @@ def expected_request(q):
 
 
 # ---------------------------------------------------------------- canonicalise library results
+def _wrong(v):
+    """a value of a type the slot cannot hold: shown as such (never raised: the canonicalisers are total, and never
+    merged with a well-typed value of the same text)"""
+    return [sym('wrong-type'), type(v).__name__.encode(), repr(v)[:80].encode('utf-8', 'replace')]
+
+
 def c_text(v):
     if v is None:
         return sym('none')
-    if isinstance(v, str):
+    if type(v) is str:
         return [sym('some'), v.encode('utf-8', 'surrogatepass')]
-    raise TypeError('text expected: %r' % (v,))
+    return _wrong(v)
+
+
+def c_int(v):
+    if type(v) is int:
+        return A(v)
+    return _wrong(v)
 
 
 def c_dict(d):
@@ -260,20 +272,24 @@ def c_dict(d):
 def c_mode(m):
     if m is None:
         return sym('none')
+    if not hasattr(m, 'name'):
+        return _wrong(m)
     return [sym('some'), sym(m.name)]
 
 
 def c_plat(p):
     if p is None:
         return sym('none')
-    if p == '':
+    if type(p) is str and p == '':
         return sym('empty')
+    if not hasattr(p, 'name'):
+        return _wrong(p)
     return [sym('member'), sym(p.name)]
 
 
 def c_table(t):
-    return [sym('table'), A(t.win_index), c_mode(t.mode), c_text(t.group), c_text(t.schema),
-            A(t.min), A(t.max), c_text(t.selector)]
+    return [sym('table'), c_int(t.win_index), c_mode(t.mode), c_text(t.group), c_text(t.schema),
+            c_int(t.min), c_int(t.max), c_text(t.selector)]
 
 
 def c_device(d):
@@ -430,7 +446,12 @@ class Gen:
 
     def seq(self, kmax=8):
         n = self.rng.choice([0, 1, 1, 2, 3, kmax])
-        return [self.text() for _ in range(n)]
+        out = [self.text() for _ in range(n)]
+        if n >= 2 and self.rng.random() < 0.35:      # the same name more than once (lists are positional, not sets)
+            out[self.rng.randrange(1, n)] = out[0]
+            if n >= 3 and self.rng.random() < 0.5:
+                out[-1] = out[0]
+        return out
 
     def table(self):
         return (self.integer(), self.mode(), self.text(), self.text(), self.integer(), self.integer(), self.text())
